@@ -40,23 +40,34 @@ Definition app1 (s : string) (c : ascii) : string := (s ++ String c "")%string.
 
 Definition lvl_bad (cur : string) (wc : bool) : bool := (1 <? String.length cur)%nat && wc.
 
-Fixpoint split_go (s cur : string) (wc : bool) : option (list level) :=
+(** the level being read is accumulated in reverse ([rcur], newest byte first) so that
+    the transcription is linear in the length of the string (topics of 65535 bytes are
+    evaluated by the correspondence); [srev rcur] is Go's [topic[levelStart:i]] *)
+Fixpoint srev_app (s acc : string) : string :=
   match s with
-  | EmptyString => if lvl_bad cur wc then None else Some [cur]
+  | EmptyString => acc
+  | String c r => srev_app r (String c acc)
+  end.
+Definition srev (s : string) : string := srev_app s "".
+
+Fixpoint split_go (s rcur : string) (wc : bool) : option (list level) :=
+  match s with
+  | EmptyString => let cur := srev rcur in if lvl_bad cur wc then None else Some [cur]
   | String ch r =>
       if Ascii.eqb ch "/" then
+        let cur := srev rcur in
         if lvl_bad cur wc then None
         else match split_go r "" false with
              | Some ls => Some (cur :: ls)
              | None => None
              end
-      else if Ascii.eqb ch "+" then split_go r (app1 cur ch) true
+      else if Ascii.eqb ch "+" then split_go r (String ch rcur) true
       else if Ascii.eqb ch "#" then
         match r with
-        | EmptyString => split_go r (app1 cur ch) true
+        | EmptyString => split_go r (String ch rcur) true
         | _ => None                      (* '#' is not the last byte of the string *)
         end
-      else split_go r (app1 cur ch) wc
+      else split_go r (String ch rcur) wc
   end.
 
 Definition split_topic (s : string) : option (list level) := split_go s "" false.
@@ -100,6 +111,13 @@ Fixpoint wf_levels (ls : list level) : bool :=
   end.
 
 Definition wf_filter (s : string) : bool := wf_levels (split_slash s).
+
+(** compact notation for long strings: [srep s n] = [s] repeated [n] times,
+    [sx [(s1, n1); (s2, n2); ...]] = s1^n1 ++ s2^n2 ++ ... (used by the case encoder for
+    topics at the 65535-byte boundary; the functions above run on the expanded string) *)
+Definition srep (s : string) (n : N) : string := N.iter n (append s) "".
+Definition sx (l : list (string * N)) : string :=
+  fold_right (fun p acc => (srep (fst p) (snd p) ++ acc)%string) "" l.
 
 (** MQTT 3.1.1 matching of a filter (levels) against a topic name (levels):
     '+' matches exactly one level, a trailing '#' the remaining levels including none. *)
